@@ -549,7 +549,33 @@ fn undecodable_names_slice(ctx: &mut Ctx) {
     let _ = sandbox::force_remove(&base);
 }
 
+/// 150 directories with 64 file descriptors: -delete removes every matched entry of every directory.
+fn low_descriptor_slice(ctx: &mut Ctx) {
+    use crate::props::lowfd;
+    for expr in [vec!["lf", "-mindepth", "1", "-delete"], vec!["lf", "-mindepth", "1", "-name", "[fl]", "-delete"]] {
+        let sbx = lowfd::build(ctx);
+        let o = lowfd::find(ctx, &expr, 64, vec![]);
+        ctx.rep.evaluations += 1;
+        ctx.rep.nontrivial += 1;
+        ctx.rep.count("low_descriptor_limit_cases", 1);
+        let left_dirs = std::fs::read_dir(sbx.join("lf")).map(|rd| rd.count()).unwrap_or(usize::MAX);
+        let left_files: usize = (0..lowfd::NDIRS).map(|i| std::fs::read_dir(sbx.join(format!("lf/d{i:03}"))).map(|rd| rd.count()).unwrap_or(0)).sum();
+        let want_dirs = if expr.len() == 4 { 0 } else { lowfd::NDIRS };
+        if o.died() || o.code != Some(0) || left_dirs != want_dirs || left_files != 0 {
+            ctx.rep.violation(
+                "C10 -delete over 150 directories with 64 file descriptors: not every matched entry is removed",
+                format!("find {:?} under RLIMIT_NOFILE=64: status {:?}; {left_dirs} directories left (expected {want_dirs}), {left_files} entries left inside them; stderr {:?}", expr, o.code, String::from_utf8_lossy(&o.err).lines().take(2).collect::<Vec<_>>()),
+                json!({"prop":"C10","forest":"","low_descriptor":true}),
+            );
+        }
+    }
+    lowfd::remove(ctx);
+}
+
 fn run(ctx: &mut Ctx) {
+    if ctx.shard == 5 % ctx.nshards {
+        low_descriptor_slice(ctx);
+    }
     if ctx.shard == 7 % ctx.nshards {
         unprivileged_slice(ctx);
     }
@@ -613,6 +639,10 @@ fn run(ctx: &mut Ctx) {
 
 fn replay(case: &Value, ctx: &mut Ctx) -> Option<String> {
     let forest = tree::decode_forest(case["forest"].as_str()?)?;
+    if case["low_descriptor"] == true {
+        low_descriptor_slice(ctx);
+        return ctx.rep.violations.keys().next().cloned();
+    }
     if case["undecodable"] == true {
         undecodable_names_slice(ctx);
         return ctx.rep.violations.keys().next().cloned();
